@@ -23,8 +23,8 @@ RULE = ("scenario = source format (raw folder / single zip / folder of zips + RE
         "creation and data write); random facet draws k as a fraction of the measured number of events, exhaustive facets enumerate "
         "ALL single crash points (and all pairs in the thorough tier) of fixed scenarios; oracle: after the sequence one "
         "uninterrupted call must return and leave a byte-identical copy (or the untouched user folder, was_copied=False), a second "
-        "call performs zero mutating events and reports nothing done, results are truthful (was_copied <=> writes, was_deleted <=> "
-        "removals, format fields); non-trivial = >=1 attempt died strictly inside the copy; distinct = distinct (scenario, crash points)")
+        "call performs zero mutating events and reports nothing done, results are truthful (was_copied <=> writes, was_deleted <=> an "
+        "incomplete automatic copy was present before the call, no unreported removal inside the destination, format fields); non-trivial = >=1 attempt died strictly inside the copy; distinct = distinct (scenario, crash points)")
 ASSUMPTIONS = ["crash = process death between two file-system operations (os._exit, no finally/flush); torn writes inside one file are "
                "approximated by the 'created / data written' points; no power-loss reordering",
                "crash injection uses in-process extraction (num_workers<=1); joblib workers are separate processes the hook cannot see"]
@@ -91,8 +91,12 @@ def make_source(spec, gdir):
             groups["misc"] = {}
         for top, sub in groups.items():
             _zip_tree(src / f"{top}.zip", sub)
-        if spec.get("readme"):
-            (src / "README").write_text("not part of the dataset")
+        # extra non-zip files are allowed as long as the folder consists "mostly" of zips: #zips >= #entries // 2
+        extras = ["README", "LICENSE"][:int(spec.get("readme") or 0)]
+        while extras and len(groups) < (len(groups) + len(extras)) // 2:
+            extras.pop()
+        for name in extras:
+            (src / name).write_text("not part of the dataset")
     return gpath
 
 
@@ -395,7 +399,7 @@ def scenario_s(draw, max_crashes=3):
     fmt = draw(st.sampled_from(["raw", "zip", "zips"]))
     return {"fmt": fmt, "tree": draw(tree_s()), "relative": draw(st.sampled_from([None, "sub", "sub/deep"])),
             "pre": draw(st.sampled_from(["absent", "absent", "parent", "user"])), "fn": draw(st.sampled_from(["folder", "imagefolder"])),
-            "readme": draw(st.booleans()), "workers": draw(st.sampled_from([0, 1])),
+            "readme": draw(st.sampled_from([0, 1, 2, 2])), "workers": draw(st.sampled_from([0, 1])),
             "crashes": draw(st.lists(st.floats(0, 0.999).map(lambda f: round(f, 3)), min_size=min(max_crashes, draw(st.sampled_from([0, 1, 1, 1]))),
                                     max_size=max_crashes))}
 
@@ -407,7 +411,7 @@ def _fixed_scenarios():
     for fn in ("folder", "imagefolder"):
         for fmt in ("raw", "zip", "zips"):
             for pre, rel in (("absent", None), ("parent", "sub/deep")):
-                yield {"fmt": fmt, "tree": FIXED_TREE, "relative": rel, "pre": pre, "fn": fn, "readme": True, "workers": 0}
+                yield {"fmt": fmt, "tree": FIXED_TREE, "relative": rel, "pre": pre, "fn": fn, "readme": 1, "workers": 0}
 
 
 def enumerate_singles(tier):
